@@ -1092,6 +1092,28 @@ func (env *SpecEnv) call(x *SExpr) (*Term, types.Type) {
 					v = False
 				}
 				return v, types.Typ[types.Bool]
+			case "calledwith":
+				if len(args) != 3 {
+					env.fail("calledwith(name, k, expr)")
+				}
+				key := fmt.Sprintf("%s|%s|%s", args[0].Name, args[1].Name, strings.Join(strings.Fields(args[2].String()), ""))
+				for _, g := range env.e.calledWith {
+					gk := fmt.Sprintf("%s|%d|", g.name, g.k)
+					if strings.HasPrefix(key, gk) && g.name == args[0].Name {
+						// match on (name, k) and the expression text modulo spacing/parenthesisation
+						if x, err := ParseSpec(g.expr); err == nil && strings.Join(strings.Fields(x.String()), "") == strings.Join(strings.Fields(args[2].String()), "") {
+							v := env.cells().cells[g.cell]
+							if v == nil {
+								v = False
+							}
+							return v, types.Typ[types.Bool]
+						}
+					}
+				}
+				if env.atCallSite {
+					return Fresh("calledwith_"+args[0].Name, "Bool"), types.Typ[types.Bool]
+				}
+				env.fail("calledwith(%s, ...): no ghost was set up for this clause", args[0].Name)
 			case "callarg":
 				as, ok := env.e.callArgs[args[0].Name]
 				var k int
